@@ -39,6 +39,10 @@ func main() {
 	r.Floor("cluster.blocks", 60)
 	r.Floor("cluster.convergences", 10)
 	r.Floor("cluster.catch-ups-over-the-network", 5)
+	truncRounds(r)
+	r.Floor("trunc-rounds.blocks", 60)
+	r.Floor("trunc-rounds.truncations", 10)
+	r.Floor("trunc-rounds.chains-replayed", 8)
 	r.Floor("marathon.blocks", 60)
 	r.Floor("marathon.blocks-leaving-pool-behind", 5)
 	r.Floor("marathon.follower-restarts", 5)
